@@ -105,8 +105,8 @@ const LOCS: [P; 5] = [(300, -200), (0, 0), (-7, 1000), (100000, -100000), (-2147
 const ORIENT_TAGS: [&str; 8] = ["inst:R0", "inst:R90", "inst:R180", "inst:R270", "inst:MX", "inst:MX-R90", "inst:MX-R180", "inst:MX-R270"];
 const NETS: [Option<&str>; 3] = [None, Some("vdd"), Some("VDD_Core")];
 const NET_TAGS: [&str; 3] = ["net:none", "net:lower-case", "net:Mixed-Case"];
-const LP: [(usize, usize); 4] = [(0, 0), (0, 1), (1, 0), (1, 1)];
-const LP_TAGS: [&str; 4] = ["lp:la/drawing", "lp:la/pin", "lp:lb/drawing", "lp:lb/other7"];
+const LP: [(usize, usize); 7] = [(0, 0), (0, 1), (1, 0), (1, 1), (0, 3), (0, 4), (1, 2)];
+const LP_TAGS: [&str; 7] = ["lp:la/drawing", "lp:la/pin", "lp:lb/drawing", "lp:lb/other7", "lp:la/obstruction", "lp:la/outline", "lp:lb/label"];
 const UNITS: [Units; 4] = [Units::Nano, Units::Micro, Units::Angstrom, Units::Pico];
 const UNIT_TAGS: [&str; 4] = ["units:nano", "units:micro", "units:angstrom", "units:pico"];
 const CELL_NAMES: [&str; 3] = ["c0_top", "c1", "c2"];
@@ -164,7 +164,7 @@ fn gen_lib(c: &mut Chooser) -> Case {
     tags.push(FAMILY_TAGS[f]);
     let variants = family(f);
     let v = c.cost(variants.len(), "shape-variant");
-    let lp = c.free(4, "layer-purpose");
+    let lp = c.free(LP.len(), "layer-purpose");
     tags.push(LP_TAGS[lp]);
     let net = c.free(3, "net");
     tags.push(NET_TAGS[net]);
@@ -185,7 +185,7 @@ fn gen_lib(c: &mut Chooser) -> Case {
         }
         2 => {
             leaf.shapes.push(focus);
-            leaf.shapes.push(SShape { layer: LP[lp].0, purpose: 1 - LP[lp].1, geom: far, net: Some("Other".into()) });
+            leaf.shapes.push(SShape { layer: LP[lp].0, purpose: if LP[lp].1 == 0 { 1 } else { 0 }, geom: far, net: Some("Other".into()) });
         }
         3 => {
             leaf.shapes.push(focus);
@@ -492,7 +492,7 @@ impl CaseDriver for C07Lib {
     fn describe(&self, tier: Tier) -> Describe {
         Describe {
             rule: format!(
-                "raw libraries of 1..3 cells (chain c0 -> c1 -> c2) listed in every order; every instance in all 8 orientations (free); the last cell holds a focus shape: family {FAMILIES:?} (free) x (layer, purpose) in 2 layers x 2 purposes (free) x net absent / lower-case / Mixed-Case (free); costed (deviation bound {}): shape variant within the family (both corner orders and mixed corners of rectangles, start vertex and direction of polygons, 1..3 segment paths, widths 2/3/4), units Nano/Micro/Angstrom/Pico, instance offsets {LOCS:?}, angle None vs Some(0), a second placement, the top also placing the leaf, named non-leaf shape, a second shape (unnamed same layer+purpose / named same layer other purpose / named other layer same place / named listed first / a named 2x2 neighbour one unit outside the shape's flush bounding box on each side, level with its first or last point, listed before or after; or a neighbour one unit thick starting right after the true extent of the shape, a path then given an odd width), unit-wide rectangles at negative coordinates, width-1 / backwards-drawn / ring / out-and-back paths (variants of the families), a blank cell (unreferenced / instantiated), two cells whose names differ only in letter case. Non-trivial = has an instance or a net.",
+                "raw libraries of 1..3 cells (chain c0 -> c1 -> c2) listed in every order; every instance in all 8 orientations (free); the last cell holds a focus shape: family {FAMILIES:?} (free) x (layer, purpose) in 2 layers x 2 purposes plus obstruction, outline and label purposes (free) x net absent / lower-case / Mixed-Case (free); costed (deviation bound {}): shape variant within the family (both corner orders and mixed corners of rectangles, start vertex and direction of polygons, 1..3 segment paths, widths 2/3/4), units Nano/Micro/Angstrom/Pico, instance offsets {LOCS:?}, angle None vs Some(0), a second placement, the top also placing the leaf, named non-leaf shape, a second shape (unnamed same layer+purpose / named same layer other purpose / named other layer same place / named listed first / a named 2x2 neighbour one unit outside the shape's flush bounding box on each side, level with its first or last point, listed before or after; or a neighbour one unit thick starting right after the true extent of the shape, a path then given an odd width), unit-wide rectangles at negative coordinates, width-1 / backwards-drawn / ring / out-and-back paths (variants of the families), a blank cell (unreferenced / instantiated), two cells whose names differ only in letter case. Non-trivial = has an instance or a net.",
                 self.bound(tier)
             ),
             assumptions: assumptions(),
